@@ -15,12 +15,16 @@ let dbuf_s (b : n list option) = match b with None -> "none" | Some l -> hex_of_
 let dbuf_of_s (s : string) : n list option = if s = "none" then None else Some (bytes_of_hex s)
 
 (* a trace: steps are appended as ;s<k>=<obs>; the first hazard ends it *)
-type trace = { mutable hz : string; mutable steps : string list; mutable cls : string list }
-let new_trace () = { hz = "none"; steps = []; cls = [] }
+type trace = { mutable hz : string; mutable steps : string list; mutable cls : string list;
+               mutable outs : (int * string) list }
+let new_trace () = { hz = "none"; steps = []; cls = []; outs = [] }
+(* the node's OUTPUT after the step just pushed (property-determined key o<k>) *)
+let trace_out (t : trace) (o : string) = t.outs <- (List.length t.steps - 1, o) :: t.outs
 let trace_result_tw (t : trace) (proto : string) (twin : bool) : string =
   let b = Buffer.create 256 in
   Buffer.add_string b ("hz=" ^ t.hz ^ ";twin=" ^ (if twin then "1" else "0"));
   List.iteri (fun k s -> Buffer.add_string b (Printf.sprintf ";s%d=%s" k s)) (List.rev t.steps);
+  List.iter (fun (k, o) -> Buffer.add_string b (Printf.sprintf ";o%d=%s" k o)) (List.rev t.outs);
   Buffer.add_string b (";class=" ^ proto ^ ":" ^ String.concat "," (List.rev t.cls));
   Buffer.contents b
 let trace_result (t : trace) (proto : string) : string = trace_result_tw t proto true
@@ -29,6 +33,18 @@ let mkbuf_p (cap : int) (d : n list) (poison : int) : n list * n =
   let l = List.length d in
   if l >= cap then (take_l cap d, n_of_int cap)
   else (d @ List.init (cap - l) (fun _ -> n_of_int poison), n_of_int l)
+(* sockrx <capacity> <size>...: the recvfrom contract every model assumes (hypothesis n <= CAP of the theorems):
+   UDPSocket::RecvFrom reports min(size, capacity) bytes, equal to the front of the datagram *)
+let () = register "sockrx" (fun args ->
+  match args with
+  | _ :: cap :: sizes ->
+    let cap = ios cap in
+    let b = Buffer.create 64 in
+    Buffer.add_string b "hz=none;twin=1";
+    List.iteri (fun k s -> Buffer.add_string b (Printf.sprintf ";s%d=ok:1|n:%d|same:1" k (min (ios s) cap))) sizes;
+    Buffer.add_string b ";class=sockrx:contract";
+    Buffer.contents b
+  | _ -> "bad-args")
 
 (* ShowNet: payload  shownet <u:init,...|-> <datagram> ...
    The model is faithful to the code as it is (finding C06-shownet-sizeof-pointer), so it is run like the
@@ -116,7 +132,8 @@ let acn_op (args : string list) : string =
         let src_s s = hex_of_bytes s.s_cid ^ "." ^ ni s.s_seq ^ "." ^ dbuf_s s.s_buf in
         let h_s h = "|u" ^ ni h.u_uni ^ ":" ^ dbuf_s h.u_buf ^ ":" ^ ni h.u_ap ^ ":" ^
                     String.concat "," (List.map src_s h.u_srcs) in
-        t.steps <- ("e:" ^ es ^ String.concat "" (List.map h_s hs')) :: t.steps)
+        t.steps <- ("e:" ^ es ^ String.concat "" (List.map h_s hs')) :: t.steps;
+        trace_out t ("e:" ^ es ^ String.concat "" (List.map (fun h -> "|u" ^ ni h.u_uni ^ ":" ^ dbuf_s h.u_buf ^ ":" ^ ni h.u_ap) hs')))
       dgs with Exit -> ());
     trace_result t "acn"
   | _ -> "bad-args"
